@@ -43,20 +43,21 @@ Definition defective : variant := Variant false false false.
 
 (* AccountingSession: the fields the property depends on *)
 Record sess := Sess {
-  ifx : N;            (* swIfIndex *)
+  ifx : N;            (* swIfIndex (for an l2gw session: the access-direction stats entry index) *)
+  hfx : N;            (* l2gwHandoffIndex (handoff-direction stats entry index; not checkpointed) *)
   last : c4;          (* lastReported*      *)
   base : c4;          (* currentBaseline*   *)
   prior : c4;         (* priorDelta*        *)
   pending : bool      (* pendingSessionConfirm *)
 }.
-Definition fresh (i : N) : sess := Sess i c4z c4z c4z false.
+Definition fresh (i h : N) : sess := Sess i h c4z c4z c4z false.
 
 (* applyVPPCounters, first half: regress detection and re-baselining *)
 Definition cum (e : sess) (st : c4) : c4 := c4_map2 add64 (c4_map2 sub64 st (base e)) (prior e).
 Definition regressed (v : variant) (e : sess) (st : c4) : bool :=
   c4_any2 N.ltb st (base e) || (fix_counters v && c4_any2 N.ltb (cum e st) (last e)).
 Definition rebase (v : variant) (e : sess) (st : c4) : sess :=
-  if regressed v e st then Sess (ifx e) (last e) c4z (last e) (pending e) else e.
+  if regressed v e st then Sess (ifx e) (hfx e) (last e) c4z (last e) (pending e) else e.
 (* applyVPPCounters: new session state and the cumulative values returned *)
 Definition apply (v : variant) (e : sess) (st : c4) : sess * c4 :=
   let e' := rebase v e st in (e', cum e' st).
@@ -77,14 +78,41 @@ Fixpoint lookup_last (l : list (N * c4)) (i : N) (acc : option c4) : option c4 :
 Definition lookup_stats (sn : snap) (i : N) : option c4 :=
   match sn with None => None | Some l => lookup_last l i None end.
 
+(* GetL2GWStats: per stats-segment entry index (bytes, packets); None = unavailable *)
+Definition l2snap := option (list (N * (N * N))).
+Fixpoint lookup_l2_last (l : list (N * (N * N))) (i : N) (acc : option (N * N)) : option (N * N) :=
+  match l with
+  | [] => acc
+  | (j, (b, p)) :: r => lookup_l2_last r i (if N.eqb i j then Some (b mod W, p mod W) else acc)
+  end.
+Definition lookup_l2 (sn : l2snap) (i : N) : option (N * N) :=
+  match sn with None => None | Some l => lookup_l2_last l i None end.
+(* what the dataplane shows at one instant: the interface table and the l2gw stats segment *)
+Record snaps := Snaps { ifs : snap; l2 : l2snap }.
+
+(* the reading a report is computed from.  g = the session's access type is l2gw.
+   tick (sendAccountingUpdate): an l2gw session reads the access entry (upstream = input) and the handoff entry
+   (downstream = output) of the l2gw segment, present if either entry is; every other session reads the interface
+   table at swIfIndex.  release (handleSessionRelease): the interface table at swIfIndex for EVERY access type. *)
+Definition l2_reading (e : sess) (sn : l2snap) : option c4 :=
+  match lookup_l2 sn (ifx e), lookup_l2 sn (hfx e) with
+  | None, None => None
+  | u, d =>
+      let ub := match u with Some x => x | None => (0, 0) end in
+      let db := match d with Some x => x | None => (0, 0) end in
+      Some (C4 (fst ub) (fst db) (snd ub) (snd db))
+  end.
+Definition reading (g tick : bool) (e : sess) (sn : snaps) : option c4 :=
+  if g && tick then l2_reading e (l2 sn) else lookup_stats (ifs sn) (ifx e).
+
 (* sendAccountingUpdate / handleSessionRelease: last-reported unless a reading is present *)
-Definition report (v : variant) (e : sess) (sn : snap) : sess * c4 :=
-  match lookup_stats sn (ifx e) with
+Definition report (v : variant) (g tick : bool) (e : sess) (sn : snaps) : sess * c4 :=
+  match reading g tick e sn with
   | Some st => apply v e st
   | None => (e, last e)
   end.
-Definition report_wraps (v : variant) (e : sess) (sn : snap) : bool :=
-  match lookup_stats sn (ifx e) with
+Definition report_wraps (v : variant) (g tick : bool) (e : sess) (sn : snaps) : bool :=
+  match reading g tick e sn with
   | Some st => apply_wraps v e st
   | None => false
   end.
@@ -99,10 +127,10 @@ Definition sst0 : sst := Sst false None None.
 
 (* notifications addressed to one session *)
 Inductive sev :=
-| EActive (i : N)                 (* TopicSessionLifecycle, state <> released, IfIndex i *)
-| ERestored (i : N)               (* TopicSessionRestored, IfIndex i *)
-| EReleased (sn : snap)           (* TopicSessionLifecycle, state released; sn = stats snapshot at that time *)
-| ETick (sn : snap) (ok : bool)   (* the session's bucket fires; ok = Accounting-Response received *)
+| EActive (i h : N)               (* TopicSessionLifecycle, state <> released, IfIndex i (l2gw: entry indexes i, h) *)
+| ERestored (i h : N)             (* TopicSessionRestored, IfIndex i *)
+| EReleased (sn : snaps)          (* TopicSessionLifecycle, state released; sn = stats snapshot at that time *)
+| ETick (sn : snaps) (ok : bool)  (* the session's bucket fires; ok = Accounting-Response received *)
 | ERestart                        (* process restart: new component, loadAcctSessions *)
 | EPrune (past : bool).           (* pruneOrphanedAcctEntries; past = now is after the confirm deadline *)
 
@@ -112,35 +140,35 @@ Inductive out :=
 | Interim (c : c4) (ok : bool)
 | Stop (c : c4).
 
-Definition confirm (e : sess) (i : N) : sess := Sess i (last e) (base e) (prior e) false.
+Definition confirm (e : sess) (i h : N) : sess := Sess i h (last e) (base e) (prior e) false.
 
-Definition lstep (v : variant) (s : sst) (ev : sev) : sst * list out :=
+Definition lstep (v : variant) (g : bool) (s : sst) (ev : sev) : sst * list out :=
   match ev with
-  | EActive i =>
+  | EActive i h =>
       if inb s then (s, [])                                   (* alreadyPresent *)
       else match cache s with
            | Some e =>
-               if fix_active v then (Sst true (Some (confirm e i)) (db s), [])
-               else (Sst true (Some (fresh i)) (Some (fresh i)), [Start])
-           | None => (Sst true (Some (fresh i)) (Some (fresh i)), [Start])
+               if fix_active v then (Sst true (Some (confirm e i h)) (db s), [])
+               else (Sst true (Some (fresh i h)) (Some (fresh i h)), [Start])
+           | None => (Sst true (Some (fresh i h)) (Some (fresh i h)), [Start])
            end
-  | ERestored i =>
+  | ERestored i h =>
       match cache s with
-      | Some e => (Sst true (Some (confirm e i)) (db s), [])
-      | None => (Sst true (Some (fresh i)) (db s), [])       (* seeded, not checkpointed *)
+      | Some e => (Sst true (Some (confirm e i h)) (db s), [])
+      | None => (Sst true (Some (fresh i h)) (db s), [])       (* seeded, not checkpointed *)
       end
   | EReleased sn =>
       match cache s with
-      | Some e => (sst0, [Stop (snd (report v e sn))])
+      | Some e => (sst0, [Stop (snd (report v g false e sn))])
       | None => (sst0, if fix_stop v then [] else [Stop c4z])
       end
   | ETick sn ok =>
       if inb s then
         match cache s with
         | Some e =>
-            let (e', c) := report v e sn in
+            let (e', c) := report v g true e sn in
             if ok then
-              let e'' := Sess (ifx e') c (base e') (prior e') (pending e') in   (* advanceLastReported *)
+              let e'' := Sess (ifx e') (hfx e') c (base e') (prior e') (pending e') in   (* advanceLastReported *)
               (Sst true (Some e'') (Some e''), [Interim c true])              (* + checkpoint *)
             else (Sst true (Some e') (db s), [Interim c false])
         | None => (s, [])
@@ -149,7 +177,7 @@ Definition lstep (v : variant) (s : sst) (ev : sev) : sst * list out :=
   | ERestart =>
       (Sst false
            (match db s with
-            | Some d => Some (Sess (ifx d) (last d) (base d) (prior d) true)
+            | Some d => Some (Sess (ifx d) 0 (last d) (base d) (prior d) true)   (* the handoff index is not in the checkpoint *)
             | None => None end)
            (db s), [])
   | EPrune past =>
@@ -160,36 +188,36 @@ Definition lstep (v : variant) (s : sst) (ev : sev) : sst * list out :=
   end.
 
 (* did the u64 arithmetic of this step wrap? *)
-Definition lstep_wraps (v : variant) (s : sst) (ev : sev) : bool :=
+Definition lstep_wraps (v : variant) (g : bool) (s : sst) (ev : sev) : bool :=
   match ev, cache s with
-  | EReleased sn, Some e => report_wraps v e sn
-  | ETick sn _, Some e => inb s && report_wraps v e sn
+  | EReleased sn, Some e => report_wraps v g false e sn
+  | ETick sn _, Some e => inb s && report_wraps v g true e sn
   | _, _ => false
   end.
 
 (* run: the trace pairs every notification with the calls it caused *)
-Fixpoint lrun (v : variant) (s : sst) (evs : list sev) : sst * list (sev * list out) :=
+Fixpoint lrun (v : variant) (g : bool) (s : sst) (evs : list sev) : sst * list (sev * list out) :=
   match evs with
   | [] => (s, [])
   | ev :: r =>
-      let (s1, o) := lstep v s ev in
-      let (s2, t) := lrun v s1 r in
+      let (s1, o) := lstep v g s ev in
+      let (s2, t) := lrun v g s1 r in
       (s2, (ev, o) :: t)
   end.
-Fixpoint lrun_wraps (v : variant) (s : sst) (evs : list sev) : bool :=
+Fixpoint lrun_wraps (v : variant) (g : bool) (s : sst) (evs : list sev) : bool :=
   match evs with
   | [] => false
-  | ev :: r => lstep_wraps v s ev || lrun_wraps v (fst (lstep v s ev)) r
+  | ev :: r => lstep_wraps v g s ev || lrun_wraps v g (fst (lstep v g s ev)) r
   end.
 Definition outputs (t : list (sev * list out)) : list out := flat_map snd t.
 
 (* ------------------------------------------------------------------ *)
 (* The component: sessions 0..k-1, session j has interim bucket (nth j bk). *)
 Inductive gev :=
-| GActive (j : nat) (i : N)
-| GRestored (j : nat) (i : N)
-| GReleased (j : nat) (sn : snap)
-| GTick (b : N) (fails : list nat) (sn : snap)      (* ProcessAccountingBucket b *)
+| GActive (j : nat) (i h : N)
+| GRestored (j : nat) (i h : N)
+| GReleased (j : nat) (sn : snaps)
+| GTick (b : N) (fails : list nat) (sn : snaps)     (* ProcessAccountingBucket b *)
 | GRestart
 | GPrune (past : bool).
 
@@ -197,8 +225,8 @@ Definition mem_nat (j : nat) (l : list nat) : bool := existsb (Nat.eqb j) l.
 
 Definition project (bk : list N) (j : nat) (g : gev) : option sev :=
   match g with
-  | GActive k i => if Nat.eqb j k then Some (EActive i) else None
-  | GRestored k i => if Nat.eqb j k then Some (ERestored i) else None
+  | GActive k i h => if Nat.eqb j k then Some (EActive i h) else None
+  | GRestored k i h => if Nat.eqb j k then Some (ERestored i h) else None
   | GReleased k sn => if Nat.eqb j k then Some (EReleased sn) else None
   | GTick b fails sn =>
       match nth_error bk j with
@@ -209,16 +237,18 @@ Definition project (bk : list N) (j : nat) (g : gev) : option sev :=
   | GPrune past => Some (EPrune past)
   end.
 
-Definition lstep_opt (v : variant) (s : sst) (e : option sev) : sst * list out :=
-  match e with Some ev => lstep v s ev | None => (s, []) end.
+Definition lstep_opt (v : variant) (g : bool) (s : sst) (e : option sev) : sst * list out :=
+  match e with Some ev => lstep v g s ev | None => (s, []) end.
 
-Fixpoint gstep_from (v : variant) (bk : list N) (j : nat) (g : list sst) (e : gev) : list (sst * list out) :=
+(* tys: session j is an l2gw session iff nth j tys = true *)
+Definition is_l2gw (tys : list bool) (j : nat) : bool := nth j tys false.
+Fixpoint gstep_from (v : variant) (bk : list N) (tys : list bool) (j : nat) (g : list sst) (e : gev) : list (sst * list out) :=
   match g with
   | [] => []
-  | s :: r => lstep_opt v s (project bk j e) :: gstep_from v bk (S j) r e
+  | s :: r => lstep_opt v (is_l2gw tys j) s (project bk j e) :: gstep_from v bk tys (S j) r e
   end.
-Definition gstep (v : variant) (bk : list N) (g : list sst) (e : gev) : list (sst * list out) :=
-  gstep_from v bk 0 g e.
+Definition gstep (v : variant) (bk : list N) (tys : list bool) (g : list sst) (e : gev) : list (sst * list out) :=
+  gstep_from v bk tys 0 g e.
 
 (* ------------------------------------------------------------------ *)
 (* The property as an executable monitor over the observable trace (notification, calls).  It does not
@@ -232,11 +262,11 @@ Definition mst0 : mst := Mst false false false c4z.
 
 Definition mon_step (m : mst) (ev : sev) (o : list out) : option mst :=
   match ev with
-  | EActive _ =>
+  | EActive _ _ =>
       if m_open m then
         match o with [] => Some (Mst true (m_pers m) false (m_ack m)) | _ => None end   (* never a second Start *)
       else match o with [Start] => Some (Mst true true false c4z) | _ => None end       (* first Active: one Start *)
-  | ERestored _ =>
+  | ERestored _ _ =>
       match o with
       | [] => if m_open m then Some (Mst true (m_pers m) false (m_ack m))
               else Some (Mst true false false c4z)                                      (* restore never sends Start *)
@@ -300,7 +330,7 @@ Fixpoint stops_ok (armed : bool) (t : list (sev * list out)) : bool :=
       let nstops := length (filter (fun x => match x with Stop _ => true | _ => false end) o) in
       match ev with
       | EReleased _ => (if armed then Nat.leb nstops 1 else Nat.eqb nstops 0) && stops_ok false r
-      | EActive _ | ERestored _ => Nat.eqb nstops 0 && stops_ok true r
+      | EActive _ _ | ERestored _ _ => Nat.eqb nstops 0 && stops_ok true r
       | _ => Nat.eqb nstops 0 && stops_ok armed r
       end
   end.
